@@ -733,3 +733,157 @@ def rule_j(ctx: Ctx) -> None:
                              f"token list and _advance leaks IndexError")
     ctx.count("forward_advance_sites", n)
     ctx.min_instances("forward_advance_sites", n, 25)
+
+
+# ------------------------------------------------------------------------------------------ C05.k
+# Text-to-number conversions. int(x) / int(x, base) / float(x) / Decimal(x) raise ValueError
+# (InvalidOperation) on text that is not a number; nothing converts that into a sqlglot error.
+
+CONVERTERS = {"int", "float", "Decimal"}
+K_SCOPE_EXACT = ("sqlglot.parser", "sqlglot.tokenizer_core", "sqlglot.tokens", "sqlglot.jsonpath", "sqlglot.generator", "sqlglot.dialects.dialect", "sqlglot.transforms", "sqlglot.time")
+K_SCOPE_PREFIX = ("sqlglot.parsers.", "sqlglot.generators.", "sqlglot.dialects.")
+VALIDATORS = {"is_int", "is_float", "isdigit", "isdecimal", "isnumeric"}
+
+# (module:qualname, normalised call) -> reason
+REVIEWED_CONVERSIONS: dict[tuple[str, str], str] = {
+    ("sqlglot.dialects.dialect:Dialect.__init__", "int(p)"):
+        "parses the `version` setting supplied by the API caller when a Dialect is configured, not SQL text",
+    ("sqlglot.generators.singlestore:_unicode_substitute", "int(m.group(1), 16)"):
+        "the argument is group 1 of the regular expression the substitution runs with (hex digits only by construction of the pattern)",
+    ("sqlglot.generator:Generator.bitstring_sql", "int(this, 2)"):
+        "BitString nodes are only built from BIT_STRING tokens, whose text the tokenizer validated with int(text, 2) (C05.g scope) before emitting the token",
+    ("sqlglot.generator:Generator.hexstring_sql", "int(this, 16)"):
+        "HexString nodes are only built from HEX_STRING tokens, whose text the tokenizer validated with int(text, 16) before emitting the token",
+}
+
+
+def _handlers_catch(t_: ast.Try, names: tuple[str, ...]) -> bool:
+    for h in t_.handlers:
+        if h.type is None:
+            return True
+        for x in ast.walk(h.type):
+            nm = x.attr if isinstance(x, ast.Attribute) else x.id if isinstance(x, ast.Name) else None
+            if nm in names:
+                return True
+    return False
+
+
+def _atom_validates(x_: ast.AST, arg: ast.AST) -> bool:
+    """the atomic condition x_ being true implies that the text `arg` converts"""
+    a = norm(arg)
+    base = norm(arg.value) if isinstance(arg, ast.Attribute) and arg.attr in ("this", "name") else None
+    if isinstance(arg, ast.Call) and isinstance(arg.func, ast.Attribute) and arg.func.attr == "to_py" and not arg.args:
+        base = norm(arg.func.value)  # int(X.to_py()): X.is_number / is_int(X.name) make the value numeric text or a number
+    for x in ast.walk(x_):
+        if isinstance(x, ast.Call):
+            cn = (call_name(x) or "").split(".")[-1]
+            if cn in VALIDATORS and ((x.args and norm(x.args[0]) == a) or (isinstance(x.func, ast.Attribute) and norm(x.func.value) == a)):
+                return True
+            if cn in VALIDATORS and base is not None and x.args and norm(x.args[0]) in (f"{base}.name", f"{base}.this"):
+                return True
+            # all(... v.is_int for v in (a, b, c)) validates a.this / a.name for each listed name
+            if cn == "all" and x.args and isinstance(x.args[0], ast.GeneratorExp) and base is not None:
+                ge = x.args[0]
+                if any(isinstance(y, ast.Attribute) and y.attr in ("is_int", "is_number") for y in ast.walk(ge.elt)):
+                    it = ge.generators[0].iter
+                    if isinstance(it, (ast.Tuple, ast.List)) and any(norm(e) == base for e in it.elts):
+                        return True
+        if isinstance(x, ast.Attribute) and x.attr == "is_int" and base is not None and norm(x.value) == base:
+            return True
+        if isinstance(x, ast.Attribute) and x.attr == "is_number" and base is not None and norm(x.value) == base and isinstance(arg, ast.Call):
+            return True  # a number literal's to_py() is an int / Decimal
+    return False
+
+
+def _validates(test: ast.AST, lab: bool, arg: ast.AST, known_false: set[str] | None = None) -> bool:
+    """`test` evaluating to `lab` implies that the text `arg` converts. A true disjunction validates when every disjunct that is
+    not already known to be false does."""
+    known_false = known_false or set()
+    if isinstance(test, ast.UnaryOp) and isinstance(test.op, ast.Not):
+        return _validates(test.operand, not lab, arg, known_false)
+    if isinstance(test, ast.BoolOp):
+        if isinstance(test.op, ast.And) and lab:
+            return any(_validates(v, True, arg, known_false) for v in test.values)
+        if isinstance(test.op, ast.Or) and lab:
+            live = [v for v in test.values if norm(v) not in known_false]
+            return bool(live) and all(_validates(v, True, arg, known_false) for v in live)
+        if isinstance(test.op, ast.Or) and not lab:
+            return False
+        return False
+    return lab and _atom_validates(test, arg)
+
+
+def rule_k(ctx: Ctx) -> None:
+    ctx.rule(
+        "C05.k",
+        "text-to-number conversions: every int()/float()/Decimal() of a non-constant value in the tokenizer, parser, generator and dialect modules runs under a "
+        "try that catches ValueError (InvalidOperation), or under a guard that validates the same text (is_int/isdigit/.is_int) — otherwise input text that is "
+        "not a number leaks ValueError instead of a sqlglot error",
+    )
+    from ..typed import types
+
+    T = types(ctx.repo)
+    n = 0
+    for m in ctx.repo.modules.values():
+        if not (m.name in K_SCOPE_EXACT or m.name.startswith(K_SCOPE_PREFIX)):
+            continue
+        for c in m.of_type(ast.Call):
+            cn = call_name(c) or ""
+            if cn not in CONVERTERS or not c.args or isinstance(c.args[0], ast.Constant):
+                continue
+            arg = c.args[0]
+            # numeric-typed arguments (int(x / y), float(count)) cannot raise ValueError: only text can
+            if isinstance(arg, (ast.BinOp, ast.UnaryOp)) or (isinstance(arg, ast.Call) and (call_name(arg) or "") in ("len", "round", "abs", "min", "max", "math.log10", "math.ceil", "math.floor")):
+                continue
+            ty_ = (T.of(m, arg) or "").replace("builtins.", "")
+            if ty_ in ("int", "float", "bool", "decimal.Decimal", "Decimal") or ty_.startswith("Literal[") and not ty_.startswith("Literal['"):
+                continue  # statically numeric
+            f = m.enclosing_func(c)
+            where = f.key if f else f"{m.name}:<module/class body>"
+            n += 1
+            txt = norm(c, 70)
+            inst = f"{where}|{txt}|{_ordinal(f.node, c) if f else ''}"
+            catch = ("ValueError", "Exception", "BaseException", "InvalidOperation", "ArithmeticError") if cn == "Decimal" else ("ValueError", "Exception", "BaseException")
+            ok, why = False, ""
+            known_false: set[str] = set()
+            cur = c
+            p = m.parent(cur)
+            while p is not None and (f is None or p is not f.node):
+                if isinstance(p, ast.IfExp) and cur is p.orelse:
+                    known_false.add(norm(p.test))
+                if isinstance(p, ast.If) and any(cur is s_ for s_ in p.orelse):
+                    known_false.add(norm(p.test))
+                if isinstance(p, (ast.FunctionDef, ast.AsyncFunctionDef, ast.Lambda)):
+                    break
+                cur, p = p, m.parent(p)
+            cur = c
+            p = m.parent(cur)
+            while p is not None and (f is None or p is not f.node):
+                if isinstance(p, ast.Try) and any(cur is s_ or any(cur is y for y in ast.walk(s_)) for s_ in p.body) and _handlers_catch(p, catch):
+                    ok, why = True, "inside try/except " + "/".join(sorted({norm(h.type) if h.type is not None else "<bare>" for h in p.handlers}))
+                    break
+                if isinstance(p, ast.If) and any(cur is s_ for s_ in p.body) and _validates(p.test, True, arg, known_false):
+                    ok, why = True, f"guarded by `{norm(p.test, 50)}`"
+                    break
+                if isinstance(p, ast.If) and any(cur is s_ for s_ in p.orelse) and _validates(p.test, False, arg, known_false):
+                    ok, why = True, f"guarded by the negation of `{norm(p.test, 50)}`"
+                    break
+                if isinstance(p, ast.IfExp) and ((cur is p.body and _validates(p.test, True, arg, known_false)) or (cur is p.orelse and _validates(p.test, False, arg, known_false))):
+                    ok, why = True, f"guarded by `{norm(p.test, 50)}`"
+                    break
+                if isinstance(p, ast.BoolOp) and isinstance(p.op, ast.And) and cur in p.values and any(_validates(v, True, arg, known_false) for v in p.values[: p.values.index(cur)]):
+                    ok, why = True, "guarded earlier in the same and-chain"
+                    break
+                if isinstance(p, (ast.FunctionDef, ast.AsyncFunctionDef, ast.Lambda)):
+                    break
+                cur, p = p, m.parent(p)
+            if ok:
+                ctx.ok(inst, {"conversion": txt, "in": where, "protected": why})
+            elif (where, txt) in REVIEWED_CONVERSIONS:
+                ctx.ok(inst, {"conversion": txt, "in": where, "reviewed": REVIEWED_CONVERSIONS[(where, txt)]})
+            else:
+                ctx.fail(m, c, where, txt,
+                         f"`{txt}` converts text that comes from the SQL being processed without a try/except ValueError or a validating guard on the same value: "
+                         f"a non-numeric text leaks ValueError instead of a sqlglot error")
+    ctx.count("conversion_sites", n)
+    ctx.min_instances("conversion_sites", n, 8)
